@@ -368,12 +368,67 @@ def hermite_units(ctx):
                   "T3:hermite interpolates end values", {"y0": y0, "y1": y1})
 
 
+def synodic_map_end_to_end(ctx):
+    """SynodicMap.compute on a propagated periodic orbit: hits against exact plane crossings of the reference flow (SciPy events)."""
+    from scipy.integrate import solve_ivp
+    from hiten import System
+    from hiten.system import LyapunovOrbit, SynodicMap
+    from ..oracles import cr3bp as ref
+    if not ctx.mine(0):
+        return
+    sysm = System.from_bodies("earth", "moon")
+    mu = float(sysm.mu)
+    pt = sysm.get_libration_point(1)
+    for amp, steps in ((0.03, 400), (0.05, 800)) if ctx.quick else ((0.02, 300), (0.03, 400), (0.05, 800), (0.08, 1600)):
+        orb = pt.create_orbit(LyapunovOrbit, amplitude_x=amp)
+        try:
+            orb.correct()
+        except Exception:
+            ctx.skip("Lyapunov correction failed — C05's concern")
+            continue
+        x0 = np.asarray(orb.initial_state, dtype=float)
+        T = float(orb.period)
+        orb.propagate(steps=steps)
+        # section x = const through the orbit's interior (the orbit crosses it twice per period, away from the sampled end points)
+        xs = np.asarray(orb.trajectory.states)[:, 0]
+        off = float(0.5 * (xs.min() + xs.max()) + 0.13 * (xs.max() - xs.min()))
+
+        def ev(t, y):
+            return y[0] - off
+        sol = solve_ivp(lambda t, y: ref.field(y, mu), (0.0, T), x0, method="DOP853", rtol=1e-13, atol=1e-13, events=ev)
+        exact = sorted((float(t), np.sign(ref.field(y, mu)[0]), y) for t, y in zip(sol.t_events[0], sol.y_events[0]) if 1e-3 < t < T - 1e-3)
+        dt = T / (steps - 1)
+        for direction in (None, 1, -1):
+            smap = SynodicMap(orb)
+            res = smap.compute(section_axis="x", section_offset=off, plane_coords=("y", "vy"), direction=direction)
+            want = [e for e in exact if direction is None or e[1] == direction]
+            st = np.asarray(res.states, dtype=float).reshape(-1, 6)
+            pts = np.asarray(res.points, dtype=float).reshape(-1, 2)
+            ctx.case("SynodicMap:lyapunov", [amp, steps, str(direction)], nontrivial=len(want) > 0)
+            wit = {"amplitude_x": amp, "steps": steps, "direction": direction, "offset": off, "exact_times": [e[0] for e in want], "n_hits": len(st)}
+            ok = ctx.check(len(st) == len(want), "E2E:SynodicMap reports one hit per admissible exact crossing", wit)
+            if not ok:
+                continue
+            # match by nearest exact crossing state
+            for h, p2 in zip(st, pts):
+                d = [np.abs(h - e[2]).max() for e in want]
+                j = int(np.argmin(d))
+                acc = np.abs(sol.sol(want[j][0]) - want[j][2]).max() if sol.sol is not None else 0.0
+                M2 = 30.0   # generous bound on |x''| along a small Lyapunov orbit (order of the local accelerations' derivatives)
+                bound = 0.5 * M2 * dt * dt + 1e-9
+                ctx.stat("E2E:state_err/linear_bound", d[j] / bound)
+                ctx.check(d[j] <= bound, "E2E:hit state within the linear-interpolation error of the exact crossing", {**wit, "err": d[j], "bound": bound})
+                ctx.check(abs(h[0] - off) <= 1e-12, "E2E:hit lies on the section plane", {**wit, "x": h[0]})
+                ctx.check(np.array_equal(p2, h[[1, 4]]), "E2E:points are the named plane coordinates of the states", {**wit, "point": p2, "state": h})
+
+
 def run(ctx):
     ctx.note("rule", "case = one (sampled curve, section, direction, interpolation, refinement) detection call; non-trivial = "
                      "the samples contain >=1 sign change or on-surface sample; distinct by generator index+seed")
     guarded(ctx, "sample_level", sample_level, ctx, ctx.pick(3000, 200000))
     guarded(ctx, "accuracy", accuracy, ctx, ctx.pick(60, 1600))
     guarded(ctx, "hermite", hermite_units, ctx)
+    guarded(ctx, "synodic_map", synodic_map_end_to_end, ctx)
     ctx.require("T1:every admissible crossing reported once", 0)
     ctx.require("T1:hits in time order", 200 if ctx.nshards == 1 else 20)
     ctx.require("T2:one hit per admissible exact crossing", 50 if ctx.nshards == 1 else 5)
